@@ -13,6 +13,7 @@ import os
 
 from . import norm as N
 from .model import AnalysisError, FuncInfo, norm_text
+from .known import PACKAGE_FUNCTIONS
 
 PATH_BOUND = 512
 
@@ -580,7 +581,7 @@ class Summariser:
         if isinstance(node.value, ast.Constant):
             return [(st, ("normal",))]
         v = node.value
-        if isinstance(v, ast.Call) and isinstance(v.func, ast.Name) and v.func.id.startswith("_") and v.func.id in self.model.functions and v.func.id not in st.env \
+        if isinstance(v, ast.Call) and isinstance(v.func, ast.Name) and (v.func.id.startswith("_") or v.func.id not in PACKAGE_FUNCTIONS) and v.func.id in self.model.functions and v.func.id not in st.env \
                 and not v.func.id[1:2].isupper() and st.depth < self.inline_depth:
             # a private package-level procedure called for its effects: its body runs in place (loops included), one continuation per exit
             multi = self._multi_inline_fi(self.model.functions[v.func.id], v, st, static=True, bound=False, procedure=True)
@@ -626,7 +627,7 @@ class Summariser:
         f = call.func if isinstance(call, ast.Call) else None
         if f is None or st.depth >= self.inline_depth:
             return None
-        if isinstance(f, ast.Name) and f.id.startswith("_") and f.id in M.functions and f.id not in st.env and not f.id[1:2].isupper():
+        if isinstance(f, ast.Name) and (f.id.startswith("_") or f.id not in PACKAGE_FUNCTIONS) and f.id in M.functions and f.id not in st.env and not f.id.lstrip("_")[:1].isupper():
             # a private package-level helper with several exits (straight-line): forked like a class helper
             return self._multi_inline_fi(M.functions[f.id], call, st, static=True, bound=False, loops_ok=True)
         if not (isinstance(f, ast.Attribute) and isinstance(f.value, ast.Name)) or not self.self_cls:
@@ -653,9 +654,9 @@ class Summariser:
         if procedure:
             if any(isinstance(n, (ast.Try, ast.With, ast.Yield, ast.YieldFrom)) for n in ast.walk(fi.node)) or not any(isinstance(n, (ast.For, ast.While)) for n in ast.walk(fi.node)):
                 return None
-        elif any(isinstance(n, (ast.Try, ast.With) if loops_ok else (ast.For, ast.While, ast.Try, ast.With)) for n in ast.walk(fi.node)):
+        elif any(isinstance(n, (ast.With,) if loops_ok else (ast.For, ast.While, ast.With)) for n in ast.walk(fi.node)):
             return None        # only straight-line helpers (branches and comprehensions); anything with loops or handlers stays a call
-        elif not any(isinstance(n, (ast.If, ast.IfExp, ast.BoolOp, ast.Raise) + ((ast.For, ast.While) if loops_ok else ())) for n in ast.walk(fi.node)):
+        elif not any(isinstance(n, (ast.If, ast.IfExp, ast.BoolOp, ast.Raise, ast.Try) + ((ast.For, ast.While) if loops_ok else ())) for n in ast.walk(fi.node)):
             return None        # a helper without branches is inlined by the ordinary (single-exit) route
         probe = st.fork()
         args = [self.expr(a, probe) for a in call.args]
@@ -1434,7 +1435,11 @@ class Summariser:
             fterm = self.expr(f, st)
         args = []
         for a in node.args:
-            args.append(self.expr(a, st))
+            t_ = self.expr(a, st)
+            if t_[0] == "star" and t_[1][0] in ("tuple", "list") and not any(x[0] == "star" for x in t_[1][1]):
+                args.extend(t_[1][1])        # f(*(a, b)) is f(a, b)
+            else:
+                args.append(t_)
         kws = []
         for k in node.keywords:
             kws.append((k.arg if k.arg is not None else "**", self.expr(k.value, st)))
@@ -1537,7 +1542,7 @@ class Summariser:
             fi = M.functions[name]
             if name[:1].isupper():
                 return ("ctor", name, args, kws)
-            if name.startswith("_") or any(self.is_stream(a) or self.is_ctx(a) for a in args) or any(self.is_stream(v) or self.is_ctx(v) for _, v in kws):
+            if name.startswith("_") or name not in PACKAGE_FUNCTIONS or any(self.is_stream(a) or self.is_ctx(a) for a in args) or any(self.is_stream(v) or self.is_ctx(v) for _, v in kws):
                 # a package-level helper that is handed a stream or a context (a new sibling of stream_read / stream_write, a scope factory):
                 # looked into, so that what it does with them is seen at the call site; helpers with several exits stay opaque calls
                 r = self.inline(fi, args, kws, node, st)
